@@ -9,6 +9,7 @@ import (
 	"sort"
 	"strings"
 	"sync"
+	"sync/atomic"
 	"time"
 
 	"verifsim/detsim"
@@ -152,13 +153,20 @@ func runE3(prop, tier string, seed uint64) int {
 	var found []e3found
 	var hashXor uint64
 	var wg sync.WaitGroup
+	var hangs int32
 	for w := 0; w < 16; w++ {
 		wg.Add(1)
 		go func(w int) {
 			defer wg.Done()
 			root := filepath.Join(s.dir, fmt.Sprintf("w%d", w), "root")
 			for it := range items {
+				if atomic.LoadInt32(&hangs) >= 4 {
+					continue // a tool that spins on some input costs seconds of CPU per invocation: four such findings are enough, the rest of the batch is skipped
+				}
 				o := e3.RunPlan(cli, root, solo, it.plan)
+				if o.V != nil && strings.Contains(o.V.Detail, "hang:") {
+					atomic.AddInt32(&hangs, 1)
+				}
 				raw, _ := json.Marshal(it.plan)
 				mu.Lock()
 				evals++
